@@ -14,6 +14,7 @@
 //!   W            clone a handle and spawn an observer awaiting `stopped()`
 //!   Z            wait until the observer has seen `stopped()` resolve
 //!   p            pause 25 ms
+//!   N            wait 300 ms for the observer: `stopped()` is expected NOT to resolve meanwhile (`to=` lists `N!` if it did)
 //!   B<n>         (first) ServerBuilder::set_message_buffer_capacity(n): the bounded outgoing queue of a WS connection
 //!   P<n>         (first) every reply is padded to n KiB
 //!   I<ms>        (first) ServerBuilder::enable_ws_ping with ping interval <ms> (inactivity limit 60 s): the clients' reader tasks
@@ -29,7 +30,8 @@
 //!   S: a = handler started before the stop signal, b = after it but before `stopped` resolved, c = after
 //!      `stopped` resolved, - = never;  F: < handler returned before `stopped` resolved, > after, - never;
 //!   R: reply read by the client (r: read, but more than 100 ms after `stopped` was observed: it cannot have been
-//!      handed to the transport before);  L: the call was sent after `stopped` had resolved.
+//!      handed to the transport before; ?: not read, and the client's WS reader ended with an I/O error instead of the
+//!      server's close frame, so it never saw the end of what the server wrote: unobservable);  L: the call was sent after `stopped` had resolved.
 //!   conns: c = closed by the server, o = still open, x = dropped by the client.
 //! Every await is under a timeout; a wait that expires is listed in `to=` and the history goes on.
 use std::collections::HashMap;
@@ -38,7 +40,7 @@ use std::sync::{Arc, Mutex};
 use std::time::Duration;
 
 use jrv::*;
-use jsonrpsee_client_transport::ws::{Url, WsTransportClientBuilder};
+use jsonrpsee_client_transport::ws::{Url, WsError, WsTransportClientBuilder};
 use jsonrpsee_core::client::{ReceivedMessage, TransportReceiverT, TransportSenderT};
 use jsonrpsee_server::{PendingSubscriptionSink, RpcModule, Server, ServerHandle};
 use tokio::io::{AsyncReadExt, AsyncWriteExt};
@@ -58,6 +60,8 @@ enum Ev {
 	Reply(u64),
 	SubOk(usize),
 	Closed(usize),
+	/// the client's WS reader ended with an I/O error instead of the server's close frame
+	Reset(usize),
 	Sig,
 	Stopped,
 	StoppedGrace,
@@ -167,7 +171,12 @@ async fn open_ws(case: &Arc<Case>, addr: std::net::SocketAddr, c: usize, d: Dura
 					}
 				}
 				Ok(_) => {}
-				Err(_) => {
+				Err(e) => {
+					// anything but the close frame: the reader did not get to the end of what the server wrote (a pong
+					// answered into a closed socket fails `receive()`, a TCP reset discards unread data)
+					if !matches!(e, WsError::Closed(_)) {
+						case.push(Ev::Reset(c));
+					}
 					case.push(Ev::Closed(c));
 					break;
 				}
@@ -446,6 +455,13 @@ async fn run_case(line: &str) -> String {
 					to.push(op.to_string());
 				}
 			}
+			("N", _) => {
+				// `stopped` must NOT resolve within 300 ms (replies are stuck behind a client that does not read): listed
+				// in `to=` as `N!` when it did
+				if have_watch && case.wait_for(Ev::Stopped, Duration::from_millis(300)).await {
+					to.push("N!".to_string());
+				}
+			}
 			("p", _) => sleep(Duration::from_millis(25)).await,
 			("B", _) | ("P", _) | ("I", _) | ("T", _) => {}
 			("A", _) => {
@@ -512,6 +528,7 @@ async fn run_case(line: &str) -> String {
 			};
 			let grace_at = pos(Ev::StoppedGrace).unwrap_or(u64::MAX);
 			let r = match pos(Ev::Reply(k)) {
+				None if pos(Ev::Reset(sent[k as usize].0)).is_some() => '?',
 				None => '-',
 				Some(n) if n < grace_at => 'R',
 				Some(_) => 'r',
